@@ -1,1 +1,408 @@
-/-! Property theorems for C18 — placeholder until the property's model is built. -/
+import FcpptModel.Spec.C18
+import FcpptProofs.C18.IntTy
+import FcpptProofs.C18.Cyclic
+import FcpptProofs.C18.Spiral
+import FcpptProofs.C18.Diamond
+import FcpptProofs.C18.Iter
+/-!
+# C18 — property theorems: ranges and iterators enumerate exactly their documented sequence
+
+All statements are about the executable model `FcpptModel/Model/C18.lean` (which the correspondence ties to the
+C++ templates) and hold for **every** integer width `bits ≥ 1` and signedness, every enum size, every boundary
+length `≥ 1` and step count, every spiral distance and origin, every container.  `f` is surplus loop fuel: the
+loops terminate with exactly the documented number of iterations, whatever budget beyond that they are given.
+Only theorems live here; lemmas are in `FcpptProofs/C18/`.
+-/
+namespace Fcppt.C18
+open Spec
+
+/-! ## int_range -/
+
+/-- the documented sequence `b, b+1, …, e-1` really is that: ascending by one, from `b`, below `e` -/
+theorem int_range_spec_mem (b e x : Int) : x ∈ Spec.intRange b e ↔ b ≤ x ∧ x < e := by
+  unfold Spec.intRange; rw [mem_iota]; omega
+
+theorem int_range_spec_getElem (b e : Int) (i : Nat) (h : (i : Int) < e - b) : (Spec.intRange b e)[i]? = some (b + i) :=
+  getElem?_iota b _ i (by omega)
+
+theorem int_range_spec_length (b e : Int) : (Spec.intRange b e).length = Spec.intRangeCount b e := length_iota _ _
+
+/-- nothing if `e ≤ b` -/
+theorem int_range_spec_empty (b e : Int) (h : e ≤ b) : Spec.intRange b e = [] := by
+  unfold Spec.intRange; rw [show (e - b).toNat = 0 by omega]; rfl
+
+/-- **`make_int_range(b, e)` yields `b, b+1, …, e-1` (nothing if `e ≤ b`)** for every integer type — narrow (promoted),
+unsigned (modular) and `int`/`long` alike: the increment never wraps and never overflows on the way. -/
+theorem int_range_elems (t : IntTy) (hb : 1 ≤ t.bits) (b e : Int) (hbr : t.InRange b) (her : t.InRange e) (f : Nat) :
+    (makeIntRange b e).elems t (f + Spec.intRangeCount b e + 1) = .ok (Spec.intRange b e) := by
+  unfold makeIntRange IntRange.make IntRange.elems Spec.intRange Spec.intRangeCount
+  by_cases h : e < b
+  · have h0 : (e - b).toNat = 0 := by omega
+    simp only [h, if_true, h0]
+    simp [intLoop_succ, iota]
+  · simp only [h, if_false]
+    have := intLoop_spec t hb (e - b).toNat b hbr.1 (by have := her.2; omega) f
+    rwa [show b + ((e - b).toNat : Int) = e by omega] at this
+
+/-- a loop budget not larger than the element count is reported as such (`overrun`), never as a shorter list -/
+theorem int_range_elems_fuel (t : IntTy) (hb : 1 ≤ t.bits) (b e : Int) (hbr : t.InRange b) (her : t.InRange e) (f : Nat)
+    (hf : f ≤ Spec.intRangeCount b e) : (makeIntRange b e).elems t f = .error .fuel := by
+  unfold makeIntRange IntRange.make IntRange.elems
+  unfold Spec.intRangeCount at hf
+  by_cases h : e < b
+  · have : f = 0 := by omega
+    subst this; simp [intLoop]
+  · simp only [h, if_false]
+    have := intLoop_fuel t hb (e - b).toNat b hbr.1 (by have := her.2; omega) f hf
+    rwa [show b + ((e - b).toNat : Int) = e by omega] at this
+
+/-- **`make_int_range_count(n)` yields `0 .. n-1`** -/
+theorem int_range_count_elems (t : IntTy) (hb : 1 ≤ t.bits) (n : Int) (hn : t.InRange n) (f : Nat) :
+    (makeIntRangeCount n).elems t (f + n.toNat + 1) = .ok (Spec.intRange 0 n) := by
+  have h0 : t.InRange 0 := ⟨t.lo_nonpos, t.hi_nonneg⟩
+  have := int_range_elems t hb 0 n h0 hn f
+  simpa [makeIntRangeCount, Spec.intRangeCount] using this
+
+/-- **`size()` is the number of elements whenever that number is representable in the range's own type** -/
+theorem int_range_size (t : IntTy) (hb : 1 ≤ t.bits) (b e : Int)
+    (hrep : (Spec.intRangeCount b e : Int) ≤ t.hi) :
+    (makeIntRange b e).size t = .ok (Spec.intRangeCount b e) := by
+  unfold makeIntRange IntRange.make IntRange.size
+  unfold Spec.intRangeCount at hrep ⊢
+  have hlo := t.lo_nonpos
+  by_cases h : e < b
+  · simp only [h, if_true, Int.sub_self]
+    rw [show ((e - b).toNat : Int) = 0 by omega, IntTy.wrap_of_inRange t hb ⟨hlo, t.hi_nonneg⟩]
+    have h1 : ¬ t.hi < 0 := by have := t.hi_nonneg; omega
+    have h2 : ¬ (0 : Int) < t.lo := by omega
+    simp [h1, h2]
+  · simp only [h, if_false]
+    have hd : ((e - b).toNat : Int) = e - b := by omega
+    rw [hd] at hrep ⊢
+    rw [IntTy.wrap_of_inRange t hb ⟨by omega, hrep⟩]
+    have h1 : ¬ t.hi < e - b := by omega
+    have h2 : ¬ e - b < t.lo := by omega
+    simp [h1, h2]
+
+/-- for unsigned types the count is always representable -/
+theorem int_range_size_unsigned (t : IntTy) (hb : 1 ≤ t.bits) (hu : t.signed = false) (b e : Int) (hbr : t.InRange b)
+    (her : t.InRange e) : (makeIntRange b e).size t = .ok (Spec.intRangeCount b e) := by
+  apply int_range_size t hb b e
+  have h1 := hbr.1; have h2 := her.2
+  simp only [IntTy.lo, hu] at h1
+  have := t.hi_nonneg
+  unfold Spec.intRangeCount
+  simp at h1; omega
+
+/-- the overflow boundary, narrow signed types (`int8_t`, `int16_t`): a count above the maximum comes back wrapped
+modulo `2^bits`, i.e. negative (`make_int_range<int8_t>(-128, 127).size() == -1`) -/
+theorem int_range_size_narrow_wraps (t : IntTy) (hb : 1 ≤ t.bits) (hp : t.promotes = true) (b e : Int)
+    (hbr : t.InRange b) (her : t.InRange e) (hbig : t.hi < e - b) :
+    (makeIntRange b e).size t = .ok (e - b - 2 ^ t.bits) := by
+  have hs : t.signed = true := by
+    cases hsg : t.signed
+    · have h1 := hbr.1; have h2 := her.2
+      simp [IntTy.lo, IntTy.hi, hsg] at h1 h2 hbig; omega
+    · rfl
+  have hne : ¬ e < b := by have := t.hi_nonneg; omega
+  have htr : t.trapping = false := by simp [IntTy.trapping, hp]
+  unfold makeIntRange IntRange.make IntRange.size
+  simp only [hne, if_false, htr, Bool.false_and, Bool.false_eq_true]
+  have hsp := two_pow_split hb
+  have hpp := two_pow_pos (t.bits - 1)
+  have h1 := hbr.1; have h2 := her.2
+  simp [IntTy.lo, IntTy.hi, hs] at h1 h2 hbig
+  have hm : (e - b) % 2 ^ t.bits = e - b := Int.emod_eq_of_lt (by omega) (by omega)
+  congr 1
+  simp only [IntTy.wrap, hm, hs, Bool.true_and, decide_eq_true_eq]
+  rw [if_pos (by omega)]
+
+/-- the overflow boundary, `int` / `long`: the subtraction `end_ - begin_` overflows — undefined behaviour, which the
+model reports as a fault instead of inventing a value (UBSan reports the same in the harness, op `irub`) -/
+theorem int_range_size_wide_overflow (t : IntTy) (htr : t.trapping = true) (b e : Int) (hbig : t.hi < e - b) :
+    (makeIntRange b e).size t = .error .signedOverflow := by
+  have hne : ¬ e < b := by have := t.hi_nonneg; omega
+  unfold makeIntRange IntRange.make IntRange.size
+  simp [hne, htr, hbig]
+
+/-- `fcppt::range::size` (counting with `std::distance` in the iterator's difference type, then `to_unsigned`)
+gives the number of steps when it is representable -/
+theorem range_size_correct (t : IntTy) (hb : 1 ≤ t.bits) (n : Nat) (h : (n : Int) ≤ t.hi) : rangeSize t n = .ok n := by
+  unfold rangeSize
+  have hlo := t.lo_nonpos
+  have hn : ¬ t.hi < (n : Int) := by omega
+  rw [IntTy.wrap_of_inRange t hb ⟨by omega, h⟩]
+  rw [IntTy.wrap_of_inRange t.toUnsigned hb]
+  · simp [hn]
+  · have hp := two_pow_split hb
+    have hpp := two_pow_pos (t.bits - 1)
+    constructor
+    · simp [IntTy.lo, IntTy.toUnsigned]
+    · simp only [IntTy.hi, IntTy.toUnsigned] at h ⊢
+      split at h <;> simp <;> omega
+
+/-! ## enum ranges -/
+
+theorem enum_range_spec_mem (s e x : Int) : x ∈ Spec.enumRange s e ↔ s ≤ x ∧ x ≤ e := by
+  unfold Spec.enumRange; rw [mem_iota]; omega
+
+theorem enum_range_spec_nodup (s e : Int) : (Spec.enumRange s e).Nodup := nodup_iota _ _
+
+theorem enum_range_spec_ascending (s e : Int) : (Spec.enumRange s e).Pairwise (· < ·) := pairwise_iota _ _
+
+/-- **`make_range_start_end(s, e)` yields every enumerator of the closed sub-range `[s, e]` once, in order**
+(the empty sub-range is `s = e + 1`), for an enum whose `size_type` has `w` bits and can hold `e + 1` -/
+theorem enum_range_elems (w : Nat) (hw : 1 ≤ w) (s e : Int) (hs : 0 ≤ s) (hse : s ≤ e + 1) (he : e + 1 < 2 ^ w) (f : Nat) :
+    (makeRangeStartEnd w s e).elems w (f + (e + 1 - s).toNat + 1) = .ok (Spec.enumRange s e) := by
+  have hlo : (sizeTy w).lo = 0 := by simp [sizeTy, IntTy.lo]
+  have hhi : (sizeTy w).hi = 2 ^ w - 1 := by simp [sizeTy, IntTy.hi]
+  have hb : 1 ≤ (sizeTy w).bits := hw
+  unfold makeRangeStartEnd EnumRange.elems Spec.enumRange
+  simp only
+  rw [IntTy.wrap_of_inRange (sizeTy w) hb ⟨by omega, by omega⟩]
+  have := intLoop_spec (sizeTy w) hb (e + 1 - s).toNat s (by omega) (by omega) f
+  rwa [show s + ((e + 1 - s).toNat : Int) = e + 1 by omega] at this
+
+/-- `size()` of an enum sub-range is its number of enumerators -/
+theorem enum_range_size (w : Nat) (hw : 1 ≤ w) (s e : Int) (hs : 0 ≤ s) (hse : s ≤ e + 1) (he : e + 1 < 2 ^ w) :
+    (makeRangeStartEnd w s e).size w = e + 1 - s := by
+  have hlo : (sizeTy w).lo = 0 := by simp [sizeTy, IntTy.lo]
+  have hhi : (sizeTy w).hi = 2 ^ w - 1 := by simp [sizeTy, IntTy.hi]
+  have hb : 1 ≤ (sizeTy w).bits := hw
+  unfold makeRangeStartEnd EnumRange.size
+  simp only
+  rw [IntTy.wrap_of_inRange (sizeTy w) hb (x := e + 1) ⟨by omega, by omega⟩,
+    IntTy.wrap_of_inRange (sizeTy w) hb (x := e + 1 - s) ⟨by omega, by omega⟩]
+
+/-- `make_range_start(s)` yields `s .. max`, `make_range()` yields every enumerator (`n < 2^w` enumerators) -/
+theorem enum_make_range_start_elems (w n : Nat) (hw : 1 ≤ w) (hn : (n : Int) < 2 ^ w) (s : Int) (hs : 0 ≤ s) (hsn : s ≤ n) (f : Nat) :
+    (makeRangeStart w n s).elems w (f + ((n : Int) - s).toNat + 1) = .ok (Spec.enumRange s ((n : Int) - 1)) := by
+  have := enum_range_elems w hw s ((n : Int) - 1) hs (by omega) (by omega) f
+  rwa [show (n : Int) - 1 + 1 - s = n - s by omega] at this
+
+theorem enum_make_range_elems (w n : Nat) (hw : 1 ≤ w) (hn : (n : Int) < 2 ^ w) (f : Nat) :
+    (makeRange w n).elems w (f + n + 1) = .ok (Spec.enumRange 0 ((n : Int) - 1)) := by
+  have := enum_make_range_start_elems w n hw hn 0 (Int.le_refl _) (by omega) f
+  simpa [makeRange] using this
+
+/-- the boundary of that guard: an enum that uses *every* value of its `size_type` (`2^w` enumerators) gets an
+**empty** `make_range()`, because `max + 1` wraps to `0`.  Outside the property's quantifier (≤ 9 enumerators);
+recorded so that the guard `n < 2^w` above is seen to be sharp. -/
+theorem enum_make_range_full_width_empty (w : Nat) (f : Nat) :
+    (makeRange w (2 ^ w)).elems w (f + 1) = .ok [] := by
+  have h : (sizeTy w).wrap (2 ^ w) = 0 := by
+    simp [IntTy.wrap, sizeTy]
+  simp [makeRange, makeRangeStart, makeRangeStartEnd, EnumRange.elems, h, intLoop_succ]
+
+/-! ## cyclic iterator -/
+
+/-- **advancing by `n ≥ 0` equals `n` single steps forward** (boundary of any length ≥ 1, any multiple of wrap-arounds) -/
+theorem advance_eq_steps_forward (c : Cyc) (h : c.Inside) (n : Int) (hn : 0 ≤ n) :
+    c.advance n = .ok (iter Cyc.increment n.toNat c) := by
+  have hlt : c.first < c.second := by have := h.1; have := h.2; omega
+  rw [Cyc.advance_eq c n hlt, Cyc.iter_increment_eq c h, show ((n.toNat : Nat) : Int) = n by omega]
+
+/-- **advancing by `n < 0` equals `|n|` single steps backward** -/
+theorem advance_eq_steps_backward (c : Cyc) (h : c.Inside) (n : Int) (hn : n < 0) :
+    c.advance n = .ok (iter Cyc.decrement (-n).toNat c) := by
+  have hlt : c.first < c.second := by have := h.1; have := h.2; omega
+  rw [Cyc.advance_eq c n hlt, Cyc.iter_decrement_eq c h, show (((-n).toNat : Nat) : Int) = -n by omega]
+  congr 3; omega
+
+/-- **the iterator always stays inside its boundary**: `advance` … -/
+theorem advance_inside (c : Cyc) (hlt : c.first < c.second) (n : Int) :
+    ∃ c', c.advance n = .ok c' ∧ c'.Inside ∧ c'.first = c.first ∧ c'.second = c.second :=
+  ⟨_, Cyc.advance_eq c n hlt, Cyc.atOffset_inside c _ hlt, rfl, rfl⟩
+
+/-- … `++` … -/
+theorem increment_inside (c : Cyc) (h : c.Inside) :
+    c.increment.Inside ∧ c.increment.first = c.first ∧ c.increment.second = c.second := by
+  have hlt : c.first < c.second := by have := h.1; have := h.2; omega
+  rw [Cyc.increment_eq c h]; exact ⟨Cyc.atOffset_inside c _ hlt, rfl, rfl⟩
+
+/-- … and `--` -/
+theorem decrement_inside (c : Cyc) (h : c.Inside) :
+    c.decrement.Inside ∧ c.decrement.first = c.first ∧ c.decrement.second = c.second := by
+  have hlt : c.first < c.second := by have := h.1; have := h.2; omega
+  rw [Cyc.decrement_eq c h]; exact ⟨Cyc.atOffset_inside c _ hlt, rfl, rfl⟩
+
+/-- the position reached: offset `(o + n) mod size` from the start of the boundary, for either sign of `n` -/
+theorem advance_position (c : Cyc) (hlt : c.first < c.second) (n : Int) :
+    c.advance n = .ok { c with it := c.first + Spec.cycOffset (c.second - c.first) (c.it - c.first) n } :=
+  Cyc.advance_eq c n hlt
+
+/-- **whole histories**: after any sequence of `++`, `--`, `+= n`, `-= n` the iterator is inside its boundary, the boundary
+is unchanged, and the position is the start offset plus the net displacement, modulo the boundary length -/
+theorem history_position (c : Cyc) (h : c.Inside) (ops : List CycOp) :
+    ∃ c', c.run ops = .ok c' ∧ c'.Inside ∧ c'.first = c.first ∧ c'.second = c.second ∧
+      c'.it = c.first + Spec.cycOffset (c.second - c.first) (c.it - c.first) (Spec.cycNet ops) := by
+  have hlt : c.first < c.second := by have := h.1; have := h.2; omega
+  exact ⟨_, Cyc.run_eq c h ops, Cyc.atOffset_inside c _ hlt, rfl, rfl, rfl⟩
+
+/-- `--` undoes `++` and vice versa -/
+theorem decrement_increment (c : Cyc) (h : c.Inside) : c.increment.decrement = c ∧ c.decrement.increment = c := by
+  obtain ⟨h1, h2⟩ := h
+  cases c with | mk it first second =>
+  simp only at h1 h2
+  constructor
+  · unfold Cyc.increment Cyc.decrement
+    by_cases he : it + 1 = second
+    · simp [he]; omega
+    · simp only [he, if_false]
+      rw [if_neg (by omega)]; simp
+  · unfold Cyc.increment Cyc.decrement
+    by_cases he : it = first
+    · simp [he]
+    · simp only [he, if_false]
+      rw [if_neg (by omega)]; simp
+
+/-- an empty boundary is a precondition violation of `advance` (division by zero), not a silent result -/
+theorem advance_empty_boundary (c : Cyc) (h : c.first = c.second) (n : Int) : c.advance n = .error .divZero := by
+  unfold Cyc.advance; simp [h]
+
+/-! ## grid spiral range -/
+
+/-- **closed form**: `make_spiral_range(c, D)` is the centre followed by rings `1 .. D`, each ring walked side by side
+(`posOf`), and the loop stops exactly there — `end()` is the first position of ring `D + 1` -/
+theorem spiral_range_eq (c : Pos) (D : Nat) (f : Nat) :
+    spiralRange c D (f + Spec.ringsLen D + 2) = .ok (Spec.spiral c D) := by
+  have hav := avoids_end c D
+  unfold spiralRange
+  rw [init_eq_conc, show f + ringsLen D + 2 = (f + 1 + ringsLen D) + 1 by omega, spiralLoop_succ]
+  have hne : ¬ (conc c D 0 3 0).cur = ⟨c.x - 1, c.y - (D : Int)⟩ := by
+    cases c; simp [conc, posOf, Pos.add_def]; omega
+  rw [if_neg hne, incr_ring, loop_rings c _ D D hav D (Nat.le_refl _) (f + 1), spiralLoop_succ]
+  have he : (conc c D (D + 1) 0 1).cur = ⟨c.x - 1, c.y - (D : Int)⟩ := by
+    cases c; simp [conc, posOf, Pos.add_def]; omega
+  rw [if_pos he]
+  cases c; simp [prepend, spiral, conc, posOf, Pos.add_def]
+
+/-- the first position of ring `D + 1` is where `end()` sits -/
+theorem spiral_end_is_first_of_next_ring (c : Pos) (D : Nat) :
+    (⟨c.x - 1, c.y - (D : Int)⟩ : Pos) = c + posOf (D + 1) 0 1 := by
+  cases c; simp [posOf, Pos.add_def]; omega
+
+/-- **every lattice point within Manhattan distance `D` is visited, and nothing else** -/
+theorem spiral_mem (c p : Pos) (D : Nat) : p ∈ Spec.spiral c D ↔ Spec.manhattan p c ≤ D := mem_spiral' c p D
+
+/-- **exactly once** -/
+theorem spiral_nodup (c : Pos) (D : Nat) : (Spec.spiral c D).Nodup := nodup_spiral' c D
+
+theorem spiral_visits_diamond_once (c p : Pos) (D : Nat) :
+    (Spec.spiral c D).count p = if Spec.manhattan p c ≤ D then 1 else 0 := by
+  rw [(spiral_nodup c D).count]
+  simp only [spiral_mem]
+
+/-- **in rings of non-decreasing distance** -/
+theorem spiral_rings_nondecreasing (c : Pos) (D : Nat) :
+    (Spec.spiral c D).Pairwise (fun p q => Spec.manhattan p c ≤ Spec.manhattan q c) := sorted_spiral' c D
+
+/-- the number of visited points, `2·D·(D+1) + 1` -/
+theorem spiral_length (c : Pos) (D : Nat) : (Spec.spiral c D).length = 2 * D * (D + 1) + 1 := by
+  simp [spiral, length_rings, ringsLen_eq]
+
+/-- the full statement about the *model's loop*, all in one: for every origin and every distance `D ≥ 0` the range
+terminates and its element list contains each point of the diamond once and only those, sorted by distance -/
+theorem spiral_range_visits_diamond_once (c : Pos) (D : Nat) (f : Nat) :
+    ∃ l, spiralRange c D (f + 2 * D * (D + 1) + 2) = .ok l ∧
+      (∀ p, l.count p = if Spec.manhattan p c ≤ D then 1 else 0) ∧
+      l.Pairwise (fun p q => Spec.manhattan p c ≤ Spec.manhattan q c) := by
+  refine ⟨Spec.spiral c D, ?_, fun p => spiral_visits_diamond_once c p D, spiral_rings_nondecreasing c D⟩
+  rw [← ringsLen_eq]; exact spiral_range_eq c D f
+
+/-! ## neighbour helpers -/
+
+/-- `neumann_neighbors(p)` returns exactly the documented four positions, in the documented order, when `p` is not on
+the edge of the coordinate type -/
+theorem neumann_eq (t : IntTy) (hb : 1 ≤ t.bits) (p : Pos) (hx : t.lo < p.x ∧ p.x < t.hi) (hy : t.lo < p.y ∧ p.y < t.hi) :
+    neumann t p = .ok (Spec.neumann p) := by
+  unfold neumann
+  rw [pred_ok t hb (by omega) (by omega), incr_ok t hb (by omega) (by omega),
+    pred_ok t hb (by omega) (by omega), incr_ok t hb (by omega) (by omega)]
+  rfl
+
+theorem moore_eq (t : IntTy) (hb : 1 ≤ t.bits) (p : Pos) (hx : t.lo < p.x ∧ p.x < t.hi) (hy : t.lo < p.y ∧ p.y < t.hi) :
+    moore t p = .ok (Spec.moore p) := by
+  unfold moore
+  rw [pred_ok t hb (by omega) (by omega), incr_ok t hb (by omega) (by omega),
+    pred_ok t hb (by omega) (by omega), incr_ok t hb (by omega) (by omega)]
+  rfl
+
+/-- the four von Neumann neighbours are exactly the points at Manhattan distance 1, each once -/
+theorem neumann_spec (p q : Pos) : (q ∈ Spec.neumann p ↔ Spec.manhattan q p = 1) ∧ (Spec.neumann p).Nodup := by
+  cases p; cases q
+  constructor
+  · simp [Spec.neumann, manhattan]; omega
+  · simp [Spec.neumann]; omega
+
+/-- the eight Moore neighbours are exactly the points at Chebyshev distance 1, each once -/
+theorem moore_spec (p q : Pos) : (q ∈ Spec.moore p ↔ Spec.chebyshev q p = 1) ∧ (Spec.moore p).Nodup := by
+  cases p; cases q
+  constructor
+  · simp [Spec.moore, Spec.neumann, chebyshev]; omega
+  · simp [Spec.moore, Spec.neumann]; omega
+
+/-- at the edge of an unsigned coordinate type there is no range check: the neighbour wraps around -/
+theorem pred_unsigned_wraps (t : IntTy) (hu : t.signed = false) : pred t 0 = .ok t.hi := by
+  have hp := two_pow_pos t.bits
+  have : (-1 : Int) % 2 ^ t.bits = 2 ^ t.bits - 1 := by
+    rw [← Int.add_emod_right (-1) (2 ^ t.bits), show (-1 : Int) + 2 ^ t.bits = 2 ^ t.bits - 1 by omega]
+    exact Int.emod_eq_of_lt (by omega) (by omega)
+  simp [pred, IntTy.trapping, hu, IntTy.wrap, IntTy.hi, this]
+
+/-! ## iterator::range, adapt_range, range::size, math::int_range_count -/
+
+/-- **`iterator::make_range(b, e)` / `range(b, e)` yields exactly the elements between the two iterators** -/
+theorem iterator_range_elems {α : Type} (c : List α) (i j : Nat) (hij : i ≤ j) (hj : j ≤ c.length) (f : Nat) :
+    (iterMakeRange i j).elems c (f + (j - i) + 1) = .ok (Spec.slice c i j) := by
+  have := iterLoop_spec c (j - i) i (by omega) f
+  rwa [show i + (j - i) = j by omega] at this
+
+/-- **`adapt_range(c)` yields the whole container** -/
+theorem adapt_range_elems {α : Type} (c : List α) (f : Nat) : (adaptRange c).elems c (f + c.length + 1) = .ok c := by
+  have := iterator_range_elems c 0 c.length (Nat.zero_le _) (Nat.le_refl _) f
+  simpa [adaptRange, iterMakeRange, Spec.slice] using this
+
+/-- `range::size` of an iterator range is the number of its elements (below `2^63`, the limit of `ptrdiff_t`) -/
+theorem iterator_range_size (i j : Nat) (hij : i ≤ j) (hj : (j : Int) < 2 ^ 63) :
+    (iterMakeRange i j).size = ((j - i : Nat) : Int) := by
+  unfold iterMakeRange IterRange.size
+  have hin : (IntTy.mk false 64).InRange ((j : Int) - i) := by
+    simp [IntTy.InRange, IntTy.lo, IntTy.hi]; omega
+  rw [IntTy.wrap_of_inRange _ (by decide) hin]; omega
+
+/-- `math::int_range_count<N>` is `0, 1, …, N-1` -/
+theorem math_int_range_count_eq (n : Nat) : mathIntRangeCount n = List.range n := by
+  simp [mathIntRangeCount]
+
+/-! ## Non-vacuity: the hypotheses are met by concrete, non-trivial values; boundary behaviour on literals -/
+
+-- int8_t: the range ending at the type's maximum, and the inverted one
+example : (makeIntRange 125 127).elems ⟨true, 8⟩ 3 = .ok [125, 126] := by rfl
+example : (makeIntRange 5 (-3)).elems ⟨true, 8⟩ 1 = .ok [] := by rfl
+example : (⟨true, 8⟩ : IntTy).InRange 125 ∧ (⟨true, 8⟩ : IntTy).InRange 127 := by decide
+-- size() of the full int8_t range is not representable: wraps to -1; the same shape over int is undefined
+example : (makeIntRange (-128) 127).size ⟨true, 8⟩ = .ok (-1) := by rfl
+example : (makeIntRange (-2147483648) 2147483647).size ⟨true, 32⟩ = .error .signedOverflow := by rfl
+example : (makeIntRange 0 255).size ⟨false, 8⟩ = .ok 255 := by rfl
+-- enum with 5 enumerators over uint8: sub-range [1,3], the empty sub-range, the whole enum
+example : (makeRangeStartEnd 8 1 3).elems 8 4 = .ok [1, 2, 3] := by rfl
+example : (makeRangeStartEnd 8 3 2).elems 8 1 = .ok [] := by rfl
+example : (makeRange 8 5).elems 8 6 = .ok [0, 1, 2, 3, 4] := by rfl
+-- cyclic: boundary [2,5) of length 3, at 3; -300 is a multiple of 3; -20 wraps
+example : (⟨3, 2, 5⟩ : Cyc).Inside := ⟨by decide, by decide⟩
+example : (⟨3, 2, 5⟩ : Cyc).advance (-300) = .ok ⟨3, 2, 5⟩ := by rfl
+example : (⟨3, 2, 5⟩ : Cyc).advance (-20) = .ok ⟨4, 2, 5⟩ := by rfl
+example : iter Cyc.decrement 20 (⟨3, 2, 5⟩ : Cyc) = ⟨4, 2, 5⟩ := by rfl
+-- what the uncorrected truncating remainder would give for the same input: a position left of the boundary
+example : (2 : Int) + ((3 - 2 + (-20) : Int).tmod 3) = 1 := by rfl
+-- spiral of distance 1 around (5,5): centre, then left, down (y+1), right, up
+example : spiralRange ⟨5, 5⟩ 1 6 = .ok [⟨5, 5⟩, ⟨4, 5⟩, ⟨5, 6⟩, ⟨6, 5⟩, ⟨5, 4⟩] := by rfl
+example : Spec.spiral ⟨5, 5⟩ 1 = [⟨5, 5⟩, ⟨4, 5⟩, ⟨5, 6⟩, ⟨6, 5⟩, ⟨5, 4⟩] := by rfl
+example : (Spec.spiral ⟨0, 0⟩ 3).length = 25 := by rfl
+-- neighbours
+example : neumann ⟨true, 32⟩ ⟨0, 0⟩ = .ok [⟨-1, 0⟩, ⟨1, 0⟩, ⟨0, -1⟩, ⟨0, 1⟩] := by rfl
+example : iterator_range_elems [10, 20, 30, 40] 1 3 (by decide) (by decide) 0 = iterator_range_elems [10, 20, 30, 40] 1 3 (by decide) (by decide) 0 := rfl
+example : (iterMakeRange 1 3).elems [10, 20, 30, 40] 3 = .ok [20, 30] := by rfl
+
+end Fcppt.C18
